@@ -78,6 +78,7 @@ def check(P: Project, R: Report) -> None:
             continue
         R.fn(f.fq)
         sites: Dict[int, tuple] = {}
+        results: Dict[int, list] = {}
 
         def sev(stmt, st: PState, an: PathAnalysis, dicts=dicts, sites=sites):
             for n in walk_local(stmt):
@@ -86,11 +87,14 @@ def check(P: Project, R: Report) -> None:
                     sites.setdefault(id(n), []).append((subst_text(idv[0], st) if idv else None, frozenset(st.lits), an))
             return None
 
-        def cev(call, st: PState, an: PathAnalysis, calls=calls, sites=sites, f=f):
+        def cev(call, st: PState, an: PathAnalysis, calls=calls, sites=sites, f=f, results=results):
             if call in calls:
                 env = envelope_call(P, f, call)
                 idn = env.get("id") if env else None
                 sites.setdefault(id(call), []).append((subst_text(idn, st) if idn is not None else None, frozenset(st.lits), an))
+                if env and env["kind"] == "response" and isinstance(P.resolve_call(f, call), ClassInfo):
+                    rn = env.get("result")
+                    results.setdefault(id(call), []).append((subst_text(rn, st) if rn is not None else None, frozenset(st.lits)))
             return None
 
         try:
@@ -145,6 +149,21 @@ def check(P: Project, R: Report) -> None:
                 is_none = isinstance(idn, ast.Constant) and idn.value is None
                 helper_generates = call_name(c).split(".")[-1] in ("create_request",)
                 R.ob("R2", f"{tag}: id argument is not the constant None", not is_none or helper_generates, where, "an envelope built with id=None fails validation (requests/responses need a string or integer id)", sample=f"R2 {f.fq}:{c.lineno} {env['kind']} id={ast.unparse(idn) if idn is not None else '<generated>'}")
+            for rt, lits in results.get(id(c), []):
+                ok_r = rt is not None
+                why = "no result argument"
+                if rt is not None:
+                    try:
+                        rnode = ast.parse(rt, mode="eval").body
+                    except SyntaxError:
+                        rnode = None
+                    if isinstance(rnode, (ast.Dict, ast.List, ast.Tuple, ast.JoinedStr)) or (isinstance(rnode, ast.Constant) and rnode.value is not None):
+                        ok_r, why = True, f"result is the literal `{rt[:30]}`"
+                    elif f"{rt} is not None" in lits or rt in lits:
+                        ok_r, why = True, f"result `{rt[:30]}` is known not to be None on the path"
+                    else:
+                        ok_r, why = False, f"result `{rt[:40]}` may be None here: serialised with exclude_none=True the response has neither result nor error, which is not valid JSON-RPC and is rejected by the library's own parser"
+                R.ob("R2", f"{tag}: a success response is never built with result None", ok_r, where, why)
             if env["kind"] == "error":
                 code = env.get("code")
                 if code is not None and not (isinstance(code, ast.Name) and code.id.startswith("<unbound")):
